@@ -109,6 +109,14 @@ def systematic_cases(rng):
 def gen_cases(rng, tier):
     n = scale(tier, 600, 20000)
     sysc = systematic_cases(rng)
+    T, O, S, K = (lambda t: [1, t]), (lambda c: [3, c]), (lambda t: [2, t, 1]), (lambda w: [0, w])
+    fixed = [{"lines": [{"num": 10, "lx": [T("X"), O("="), T("1E"), O("+"), T("5")], "sep": 1},
+                        {"num": 20, "lx": [T("Y"), O("="), T("2"), O("."), T("5D"), O("-"), T("3"), O(":"), T("Z"), O("="), T("1e"), O("-"), T("7")], "sep": 1},
+                        {"num": 30, "lx": [K("IF"), O(" "), T("R$"), O("="), S("o"), O(" "), K("THEN"), O(" "), T("100")], "sep": 1},
+                        {"num": 40, "lx": [K("IF"), O(" "), T("R$"), O("="), S("O"), O(" "), K("THEN"), O(" "), T("100")], "sep": 1},
+                        {"num": 50, "lx": [K("CLS"), O(":"), O("'"), K("END")], "sep": 1},
+                        {"num": 60, "lx": [O("'"), K("DEFINT"), O(" "), T("A")], "sep": 1}], "final_nl": True}]
+    sysc = sysc + fixed
     nm = scale(tier, 30, 500)
     multi = [{"multi": [gen_case(rng) for _ in range(rng.choice([2, 2, 3]))]} for _ in range(nm)]
     return sysc + [gen_case(rng) for _ in range(n)] + multi, {"random": n, "every keyword x every left/right context": len(sysc), "several listings in one run": nm}
